@@ -115,6 +115,24 @@ class Canon(ast.NodeTransformer):
             return ast.copy_location(new, n)
         return n
 
+    def visit_While(self, n):
+        # while A: (if C: break); REST   ->   while A and not C: REST      (no else clause: a break would skip it)
+        self.generic_visit(n)
+        while (
+            not n.orelse and n.body and isinstance(n.body[0], ast.If) and not n.body[0].orelse
+            and len(n.body[0].body) == 1 and isinstance(n.body[0].body[0], ast.Break) and len(n.body) > 1
+            and not self._has_walrus(n.body[0].test) and not self._has_walrus(n.test)
+        ):
+            c = n.body[0].test
+            neg = c.operand if isinstance(c, ast.UnaryOp) and isinstance(c.op, ast.Not) else ast.copy_location(ast.UnaryOp(op=ast.Not(), operand=c), c)
+            if isinstance(n.test, ast.Constant) and n.test.value is True:
+                n.test = neg
+            else:
+                vals = [*n.test.values, neg] if isinstance(n.test, ast.BoolOp) and isinstance(n.test.op, ast.And) else [n.test, neg]
+                n.test = ast.copy_location(ast.BoolOp(op=ast.And(), values=vals), n.test)
+            n.body = n.body[1:]
+        return n
+
     def visit_Return(self, n):
         self.generic_visit(n)
         # return A if c else B  ->  if c: return A  else: return B   (so that path rules see both exits)
